@@ -19,6 +19,7 @@ from ..unit import Unit
 from ..engine.prove import Session
 from ..engine import symex as sx
 from ..engine import values as V
+from ..engine.values import SInt
 from . import fitter_units as FT
 from . import indent_units as IU
 from . import resid
@@ -45,6 +46,13 @@ def unit_setitem_owns(tier=None, seed=None):
             raise sx.PathAbort()
         key = KEYS[ki]
         new = F.sym_value(I, key, "new")
+        if key == "method_kws":
+            # further optimiser keywords may or may not be present in the caller's dictionary (current and legacy
+            # lmfit / scipy names): nothing the caller handed over may be renamed, removed or added
+            for kw in ("maxfev", "maxiter", "max_nfev", "ftol", "xtol", "tol", "options"):
+                if kw not in new.obj.d:
+                    new.obj.d[kw] = [z3.Bool(f"caller_gives_{kw}"), SInt(z3.Int(f"caller_{kw}"))]
+            st["caller_kws"] = {kk: (e[0], e[1]) for kk, e in new.obj.d.items()}
         st.update(o=o, key=key, new=new)
         f, _ = o.cls.find("__setitem__")
         return sx.BoundMethod(o, f), [key, new.obj], {}
@@ -77,6 +85,10 @@ def unit_setitem_owns(tier=None, seed=None):
         S.ensure(f"owns.{key}", not (mine & theirs), case={"key": key}, witness=key)
         S.ensure(f"frame.{key}", not any(id(m) in mine or (isinstance(m, tuple) and id(m[0]) in mine)
                                          for m in I.mutations), case={"key": key})
+        if key == "method_kws":
+            same = set(new.obj.d) == set(st["caller_kws"]) and all(
+                F.same_presence(new.obj.d[kk][0], p0) and new.obj.d[kk][1] is v0 for kk, (p0, v0) in st["caller_kws"].items())
+            S.ensure("frame.method_kws_entries", same, case={"key": key, "now": sorted(map(str, new.obj.d))})
 
     S.run(setup, post)
     return S.finish(replay=replay_c10)
@@ -86,6 +98,20 @@ def replay_c10(ob):
     import copy
     import numpy as np
     oid = ob.oid
+    if "frame.method_kws" in oid:
+        from nanite.fit import FitProperties
+        for kws in ({"maxfev": 40}, {"maxiter": 5}, {"max_nfev": 7, "maxfev": 3}, {"ftol": 1e-3}, {"xtol": 1e-4, "tol": 1},
+                    {"options": {"maxiter": 3}}):
+            mine = copy.deepcopy(kws)
+            fp = FitProperties()
+            try:
+                fp["method_kws"] = mine
+            except BaseException:
+                pass
+            if mine != kws:
+                return {"confirmed": True, "input": {"method_kws": kws}, "observed": {"caller's dict afterwards": mine},
+                        "required": "unchanged"}
+        return {"confirmed": False}
     if "FitProperties.__setitem__.owns" in oid:
         key = oid.rsplit(".", 1)[-1]
         P = ["compute_tip_position", "correct_force_offset", "correct_tip_offset"]
